@@ -394,6 +394,9 @@ def in_range(v, ty):
     return -(1 << (bits - 1)) <= v < (1 << (bits - 1))
 
 
+_REF_FORWARDING = frozenset(['PartialEq', 'PartialOrd', 'Ord', 'Hash', 'Display', 'Debug'])
+
+
 class Interp:
     """one path's execution state"""
 
@@ -1089,6 +1092,23 @@ class Interp:
         else:
             fn = m.lookup_def(ty, trait, targs, method)
             if fn is not None:
+                if selfty and selfty.lstrip().startswith('&') and trait in _REF_FORWARDING:
+                    # std: `impl Trait for &A` forwards to A's impl with the references peeled off
+                    both = method in ('eq', 'ne', 'partial_cmp', 'cmp', 'lt', 'le', 'gt', 'ge')
+
+                    def fwd(it, argv, text, fn=fn, both=both):
+                        args = list(argv)
+                        for k in range(2 if both else 1):
+                            a = args[k]
+                            while isinstance(a, RefV):
+                                inner = it.load(a.addr)
+                                if not isinstance(inner, RefV):
+                                    break
+                                a = inner
+                            args[k] = a
+                        return it.call_mir(fn, args)
+                    fwd.__name__ = 'ref_forwarding_impl'
+                    return ('model', fwd, info)
                 return ('mir', fn, info)
         # models: most specific key first
         keys = []
